@@ -37,11 +37,12 @@ def krylov_exp_impl(
     described in "Expokit: A Software Package for Computing Matrix Exponentials"
     (https://www.maths.uq.edu.au/expokit/paper.pdf).
 
-    The input tensor object `v` becomes invalid after calling that function.
+    The input tensor object `v` is left untouched.
     """
 
     initial_norm = v.norm()
-    v /= initial_norm
+    # not in place: `v` may be a tensor autograd has saved (e.g. the state an observable was computed from)
+    v = v / initial_norm
 
     lanczos_vectors = [v]
     T = torch.zeros(max_krylov_dim + 2, max_krylov_dim + 2, dtype=v.dtype)
